@@ -536,3 +536,33 @@ example : (Alg.join true (.join true (.bgp []) (.bgp [])) (.bgp [])).annotate =
     .join false (.join true (.bgp []) (.bgp [])) (.bgp []) := rfl
 
 end RV.C04
+
+namespace RV.C04
+open Spec Model
+
+/-- Round g — `analyse` decides which joins are evaluated lazily (right side under each left solution) and which by
+    `_join` of two independent evaluations.  The choice is invisible in the answer wherever `safeIn` holds: the tree
+    with NO lazy join (`Alg.strict`) is `safeIn` the same context (`Alg.safeIn_strict`: a lazy join only adds the left
+    side's variables to the right side's context) and gives the same bag. -/
+def Statement_lazy_irrelevant : Prop :=
+  ∀ (n : Nat) (D : Dataset) (P : Alg) (ctx : List Nat), D.WF → P.safeIn ctx = true → WellScoped n P →
+    ∀ (g : Graph) (μ0 : Row n), μ0.domIn ctx →
+      (Model.evalPart D g μ0 P.strict).Perm (Model.evalPart D g μ0 P)
+
+theorem lazy_irrelevant : Statement_lazy_irrelevant := by
+  intro n D P ctx hD hs hws g μ0 h0
+  have h1 := pushdown_induction hD P ctx hs hws g μ0 h0
+  have h2 := pushdown_induction hD P.strict ctx (Alg.safeIn_strict P ctx hs)
+    (by rw [Alg.allVars_strict]; exact hws) g μ0 h0
+  rw [specEval_strict] at h2
+  exact h2.trans h1.symm
+
+/-- the converse fails, and this is how K1 shows at its witness: with the join NOT lazy the K1 pattern is `safeIn []`
+    and evaluates to the algebra's (empty) answer; the lazy join that `analyse` chooses pushes `?v2` into the nested
+    group, whose FILTER then takes it for the group's own binding -/
+theorem lazy_exposes_K1 :
+    k1Pattern.strict.safeIn [] = true ∧ k1Pattern.safeIn [] = false ∧
+    (Model.evalPart k1Data k1Data.dflt (Row.empty : Row 4) k1Pattern.strict).length = 0 ∧
+    (Model.evalPart k1Data k1Data.dflt (Row.empty : Row 4) k1Pattern).length = 1 := by decide
+
+end RV.C04
